@@ -86,8 +86,8 @@ impl<'n> TryFromNode<'n> for Field {
             let (xml_name, namespace_ref) = split_type(ref_name);
             let rust_name = rename_keywords(&as_identifier(&to_snake_case(xml_name))).to_string();
 
-            if ref_name.starts_with("xml") {
-                /* This is a reference to an XML type */
+            if ref_name.starts_with("xml:") {
+                /* This is a reference to an attribute of XML itself (xml:lang, xml:space) */
                 return Ok(Field {
                     xml_name: xml_name.to_string(),
                     rust_name: rust_name.to_string(),
